@@ -13,7 +13,7 @@ import (
 
 func init() {
 	register(&Property{
-		ID: "C02",
+		ID:          "C02",
 		Explanation: "Decided for all paths: FSM.Apply/ApplyBatch/StoreConfiguration/Restore/Snapshot are invoked only by the FSM goroutine's closures (plus start-up restore before any goroutine exists and the RecoverCluster override); the FSM queue has three frozen senders and one receiver and every dynamic type sent has a case in the receiver's type switch; processLogs returns early for indexes already applied, walks lastApplied+1..index in steps of one, panics on a log read error (never skips), forwards every prepared entry to a batch, flushes the last batch and only then publishes lastApplied=index; every processLogs call passes an index that was just published as commit index (follower: min(leaderCommit,lastIndex) after the previous-entry check; leader: only in-flight indexes not beyond the tracker's commit index; start-up: clamped staged index); InstallSnapshot updates applied/snapshot position only after the snapshot is durable and the FSM restored it; prepareLog has a case for every LogType and hands only Command/Barrier/Configuration entries to the FSM.",
 		NotDecided:  "that entries at one index are identical across servers (that is C03/C04 behaviourally) and that a restored snapshot's content equals the agreed history; R4 does not prove that indexes <= getLastIndex() were all verified against the leader after an InstallSnapshot that left a stale tail (see C12 known finding).",
 		RuleText:    "C02.R1 who-may tables of the FSM interface methods; R2 sender/receiver tables and type agreement on fsmMutateCh; R3 loop-shape rules in processLogs; R4 provenance/guard of every processLogs argument; R5 = C04.R1; R6 install ordering; R7 LogType exhaustiveness in prepareLog.",
